@@ -1,0 +1,6 @@
+//go:build !verif
+
+package file
+
+// verifEvent is a no-op unless the package is built with the `verif` tag.
+func verifEvent(*WatchingSource, string) {}
